@@ -128,7 +128,8 @@ theorem warpRemoteTransfer_orb {cfg : Cfg} (hd : Distinct cfg) {c c' : Ctx} {tok
     | none => simp [hr] at h
     | some rgas =>
       simp only [hr, Res.bind_ok, Res.guard_bind_eq_ok, Res.guard_panic_bind_eq_ok] at h
-      obtain ⟨_, _, h⟩ := h
+      obtain ⟨_, h⟩ := h
+      obtain ⟨hk, _, h⟩ := Res.bind_eq_ok.mp h
       split at h
       · simp only [Res.ok.injEq] at h
         subst h
